@@ -16,6 +16,11 @@
 (*   extra : optional - allowance that depends on the history (replay of a   *)
 (*           dynamic macro lasts as long as what was recorded)               *)
 (*   r1cap : optional - cap of the soft counter r1 (0 = not counted)         *)
+(*   rec   : optional - TRUE when the text contains dynamic-macro-record:     *)
+(*           recording is a mode the user switches on and leaves on; while    *)
+(*           it is on kanata is by definition not idle (the recorded pauses   *)
+(*           are counted in ticks), so for such configurations `idle` is not  *)
+(*           judged (a history need not stop its recordings)                  *)
 (*                                                                         *)
 (* Observable alphabet (Obs.tla): inputs d/u/r/p (code), ticks with the OS   *)
 (* events of the tick, `idle` (Kanata::is_idle) and `cb`.  The C01 trace      *)
@@ -88,7 +93,7 @@ Judge(m, out, idle) ==
   THEN Fail(m, "C01 R2: mouse buttons still pressed at the OS after the quiet bound: " \o ToString(m.btnDown))
   ELSE IF out # <<>>
   THEN Fail(m, "C01 R2: output is still emitted after the quiet bound: " \o ToString(Head(out)))
-  ELSE IF ~idle
+  ELSE IF ~idle /\ ~POpt(m.p, "rec", FALSE)
   THEN Fail(m, "C01 R2: kanata does not report idle after the quiet bound")
   ELSE m
 
